@@ -677,6 +677,17 @@ Proof.
 Qed.
 Print Assumptions c16_download_unauthenticated_refused.
 
+(* not only bytes: ANY 200 to a GET / HEAD (HEAD's empty 200, the media handler's own status) is given only
+   behind the key check and the credential check *)
+Theorem c16_download_200_needs_credentials : forall r e,
+  dq_meth r = MGet \/ dq_meth r = MHead ->
+  (forall c, auth_of (dq_creds_c16c r) (dq_sid_c16c r) = AuthErr c -> c <> 200%Z) ->
+  serve_gate_c16c r = Reply 200 e ->
+  first_some (dq_keys_c16c r) = Some KValid /\
+  exists u, auth_of (dq_creds_c16c r) (dq_sid_c16c r) = AuthUid u /\ u <> 0%N.
+Proof. exact serve_c16c_200. Qed.
+Print Assumptions c16_download_200_needs_credentials.
+
 (* the full-field gate is the gate of Sys/Files.v on the projected request: c16_gate, c16_methods,
    c16_refused_no_effect and c16_served_only_completed hold for it as they stand *)
 Theorem c16_download_full_is_gate :
